@@ -1,6 +1,6 @@
 #!/bin/bash
 # tools/regen_evidence.sh [seed]: rewrite evidence/<id>.json for every claimed property from a quick run on /repo
-cd /verif
+cd "$(dirname "$(readlink -f "$0")")/.."
 seed=${1:-1}
 for p in $(cat harness/claimed.txt); do
   t0=$(date +%s)
